@@ -113,6 +113,7 @@ type Sched struct {
 	Trace       []TraceStep
 	PhaseSteps  []int
 	nMainGo     int
+	lastSelect  int // concrete runs: case picked by the select executed in the current segment (-1 none)
 	mainAdvance *Term
 	ChoiceNames []string
 	SlotIDs     map[string]int
@@ -123,6 +124,7 @@ type TraceStep struct {
 	K string `json:"k"`
 	I int    `json:"i"`
 	E int64  `json:"e"`
+	S int    `json:"s"` // select case to take in this step (-1: not constrained)
 }
 
 type syncInfo struct {
@@ -910,20 +912,46 @@ func (ex *Exec) Quiesce(maxSteps int) (*Term, []*World) {
 			cname := fmt.Sprintf("ch!%s", shortHash(ex.worldKey(w)+fmt.Sprint(depth)))
 			sc.ChoiceNames = append(sc.ChoiceNames, cname)
 			choice := ex.freshInt(cname, big0, bigInt(255))
+			nCand := 0
+			for _, c := range cands {
+				if !c.en.IsFalse() {
+					nCand++
+				}
+			}
+			forced := "" // concrete replay: the one candidate that moves in this world
+			if ex.Fixed != nil {
+				if choice.IsConst() {
+					for _, c := range cands {
+						if !c.en.IsFalse() && tb.Eq(choice, ex.intConstLike(choice, int64(ex.slotID(c.key)))).IsTrue() {
+							forced = c.key
+						}
+					}
+				}
+				if forced == "" {
+					// the model leaves this choice open (any order leads to the violation): take
+					// the first thing that can move
+					for _, c := range cands {
+						if c.en.IsTrue() {
+							forced = c.key
+							break
+						}
+					}
+				}
+			}
 			worldAccs := make([][]accessRec, len(cands))
 			for ci, c := range cands {
 				if c.en.IsFalse() {
 					continue
 				}
-				base := tb.And(w.G, tb.Eq(choice, ex.intConstLike(choice, int64(ex.slotID(c.key)))), c.en)
-				if base.IsFalse() {
-					continue
+				pick := tb.Eq(choice, ex.intConstLike(choice, int64(ex.slotID(c.key))))
+				if nCand == 1 {
+					pick = tb.True // nothing else can move in this world
 				}
-				if ex.Fixed != nil && !choice.IsConst() {
-					// concrete replay: the model did not fix this choice => stop here
-					if os.Getenv("VERIF_DEBUG") != "" {
-						fmt.Printf("[concrete] choice %s not fixed by the model at depth %d (world %s)\n", cname, depth, ex.worldKey(w))
-					}
+				if forced != "" {
+					pick = tb.Bool(c.key == forced)
+				}
+				base := tb.And(w.G, pick, c.en)
+				if base.IsFalse() {
 					continue
 				}
 				if os.Getenv("VERIF_DEBUG") == "5" && depth >= 18 && depth <= 19 {
@@ -943,7 +971,7 @@ func (ex *Exec) Quiesce(maxSteps int) (*Term, []*World) {
 					ex.fireTimer(c.tm, tb.True)
 					if ex.Fixed != nil {
 						e, _ := ex.termInt64(eps)
-						sc.Trace = append(sc.Trace, TraceStep{K: "M", I: c.tm.id, E: e})
+						sc.Trace = append(sc.Trace, TraceStep{K: "M", I: c.tm.id, E: e, S: -1})
 					}
 				} else {
 					c.th.Steps++
@@ -953,10 +981,14 @@ func (ex *Exec) Quiesce(maxSteps int) (*Term, []*World) {
 					r.locks = c.st.locks
 					r.segStep = sc.segments
 					if ex.Fixed != nil {
-						sc.Trace = append(sc.Trace, TraceStep{K: "T", I: c.th.ID})
+						sc.Trace = append(sc.Trace, TraceStep{K: "T", I: c.th.ID, S: -1})
 					}
+					sc.lastSelect = -1
 					ex.push(r)
 					ex.runWorklist()
+					if ex.Fixed != nil {
+						sc.Trace[len(sc.Trace)-1].S = sc.lastSelect
+					}
 				}
 				sc.running = false
 				if sc.Races {
